@@ -89,6 +89,11 @@ func (w *World) can(tr string) bool {
 			return false
 		}
 		return true
+	case "cmd":
+		c := uint32(ai(2))
+		return !r.exited() && int(c) < w.g.nchunks() && r.adv[c/w.g.cpp()] && !w.t.Pieces.Complete(c/w.g.cpp())
+	case "ansq":
+		return !r.exited() && len(r.p.VerifState().Queue) > 0
 	case "rej":
 		if !r.cfg.Fast || len(r.outstanding) == 0 || (f[2] == "new" && len(r.outstanding) < 2) {
 			return false
